@@ -63,7 +63,8 @@ def _write(results_obj):
 
 def run_case(case):
     res = core.Result(evals=0)
-    m = physics.manager(case["method"], pipe=case.get("pipe", "single"), load=case["load"], months=12)
+    kw = {"max_eft": case["limits"][0], "min_eft": case["limits"][1]} if case.get("limits") else {}
+    m = physics.manager(case["method"], pipe=case.get("pipe", "single"), load=case["load"], months=12, **kw)
     e = physics.find(m)
     res["evals"] += 1
     if e is not None:
@@ -71,7 +72,16 @@ def run_case(case):
         res["states"], res["transitions"] = [], []
         return res
     sig = physics.signature(m)
-    if case["kind"] == "setter_after_design":
+    if case["kind"] == "plain_report":
+        # limits that are not round numbers (90 F / 40 F): the report echoes them as given
+        d, files = physics.write_outputs(m, tag="r")
+        physics.cleanup(d)
+        js = json.loads(files["SimulationSummary.json"])
+        up, lo = js["simulation_parameters"]["maximum_allowable_hp_eft"]["value"], js["simulation_parameters"]["minimum_allowable_hp_eft"]["value"]
+        if abs(up - case["limits"][0]) > 1e-12 or abs(lo - case["limits"][1]) > 1e-12:
+            res["violations"].append(core.viol("reported_limits_differ_from_inputs", case, observed=[up, lo], expected=case["limits"], msg=f"the summary reports the limits {up} / {lo}, the design was made for {case['limits']}", engine="R"))
+        _summary_checks(res, case, js, sig, "report of a design with limits that are not round numbers")
+    elif case["kind"] == "setter_after_design":
         # the user tightens the limits for the NEXT study step, then writes the report of the design just made
         m.set_simulation_parameters(num_months=12, max_eft=30.0, min_eft=8.0, max_height=135.0, min_height=60.0)
         if case.get("also_borehole"):
